@@ -113,3 +113,69 @@ Print Assumptions mutation_scale_never_negative_or_nan_partial.
 
 Example meta_valid_somewhere : m_valid expl_base = true /\ fin (m_mscale expl_base) = true.
 Proof. vm_compute. split; reflexivity. Qed.
+
+(** ** the files.  [Writer.wrun] is [handle_detailed_report_items] over the items the controller
+    sent: after any prefix of them (hence also when the run fails later) the CSV holds exactly
+    those items, in order, and the best-seen file holds the parameter set of an item whose
+    objective is <= the objective of every item received so far (none if no item had a value). *)
+From Cambrian Require Import Writer.
+Theorem csv_and_best_seen_file_consistent :
+  forall (V M T : Type) (tcmp : T -> T -> comparison),
+    (forall a b : T, tcmp b a = CompOpp (tcmp a b)) ->
+    (forall a b c : T, tcmp a b <> Gt -> tcmp b c <> Gt -> tcmp a c <> Gt) ->
+    forall its : list (item V M T),
+      w_rows V M T (wrun V M T tcmp its) = its /\
+      match w_best V M T (wrun V M T tcmp its) with
+      | None => forall it, In it its -> it_res it = None
+      | Some (v, b) =>
+          (exists it, In it its /\ it_res it = Some b /\ it_val it = v) /\
+          (forall it y, In it its -> it_res it = Some y -> tcmp b y <> Gt)
+      end.
+Proof. intros V M T tcmp H1 H2 its. exact (writer_files_consistent V M T tcmp H1 H2 its). Qed.
+Print Assumptions csv_and_best_seen_file_consistent.
+
+(** sample size 1: the best-seen file's objective equals the final report's *)
+Theorem best_seen_file_matches_report_ss1 :
+  forall (V M T : Type) (tcmp : T -> T -> comparison) (mean : list T -> T) (hit : T -> bool)
+         (nc : N) (budget : option N) (init_val : V) (os : N -> orc V M),
+    (forall a b : T, tcmp b a = CompOpp (tcmp a b)) ->
+    (forall a b c : T, tcmp a b <> Gt -> tcmp b c <> Gt -> tcmp a c <> Gt) ->
+    (forall x : T, tcmp (mean [x]) x = Eq) ->
+    forall (ls : list (label T)) (c : ctl V M T) (x : T) (v : V) (a b : N),
+      exec tcmp mean hit max_pop_size min_pop_size_for_reeval 1 budget init_val os
+           (init T min_pop_size_for_reeval 1 nc budget init_val os) ls = Ret c (ROk x v a b) ->
+      exists vb xb, w_best V M T (wrun V M T tcmp (c_items c)) = Some (vb, xb) /\ tcmp xb x = Eq.
+Proof.
+  intros V M T tcmp mean hit nc budget init_val os Hsym Htr Hms ls c x v a b He.
+  assert (Hpos : 1 <= max_pop_size) by (vm_compute; repeat constructor).
+  destruct (best_is_evaluated_lemma V M T tcmp mean hit max_pop_size min_pop_size_for_reeval 1 nc budget init_val os
+              (le_n 1) ls c x v a b He) as (id & s & _ & Hx & Hlen & _).
+  destruct (vals_of V M T c id) as [|y0 [|]] eqn:Ev; try discriminate. clear Hlen.
+  (* y0 is the result of a report item *)
+  assert (Hy0 : exists it0, In it0 (c_items c) /\ it_res it0 = Some y0).
+  { assert (Hin : In y0 (vals_of V M T c id)) by (rewrite Ev; left; reflexivity).
+    unfold vals_of in Hin. apply in_flat_map in Hin. destruct Hin as (it0 & Hin0 & Hy).
+    exists it0. split; [exact Hin0|]. destruct (N.eqb (it_id it0) id); [|destruct Hy].
+    destruct (it_res it0) as [y|]; [|destruct Hy]. destruct Hy as [->|[]]. reflexivity. }
+  destruct Hy0 as (it0 & Hin0 & Hres0).
+  pose proof (writer_files_consistent V M T tcmp Hsym Htr (c_items c)) as [_ HW].
+  destruct (w_best V M T (wrun V M T tcmp (c_items c))) as [[vb xb]|].
+  - exists vb, xb. split; [reflexivity|]. destruct HW as [(itb & Hinb & Hresb & _) Hmin].
+    assert (L1 : tcmp x xb <> Gt).
+    { eapply (best_is_min_ss1_lemma V M T tcmp mean hit max_pop_size min_pop_size_for_reeval 1 nc budget init_val os);
+        eauto. }
+    assert (L2 : tcmp xb y0 <> Gt) by exact (Hmin it0 y0 Hin0 Hres0).
+    assert (L3 : tcmp y0 x <> Gt).
+    { subst x. rewrite Hsym, Hms. cbn. discriminate. }
+    pose proof (Htr _ _ _ L2 L3) as L4.
+    destruct (tcmp xb x) eqn:E; try reflexivity; [|congruence].
+    exfalso. apply L1. rewrite Hsym, E. reflexivity.
+  - rewrite (HW it0 Hin0) in Hres0. discriminate.
+Qed.
+Print Assumptions best_seen_file_matches_report_ss1.
+
+Example writer_nonvacuous :
+  let its := [mkItem 0%N 0%N 7 (None : option unit) (Some 5%Z); mkItem 1%N 1%N 8 None None;
+              mkItem 2%N 2%N 9 None (Some 3%Z); mkItem 3%N 3%N 10 None (Some 3%Z)] in
+  w_best nat unit Z (wrun nat unit Z Z.compare its) = Some (9, 3%Z) /\ length (w_rows nat unit Z (wrun nat unit Z Z.compare its)) = 4.
+Proof. vm_compute. split; reflexivity. Qed.
